@@ -181,9 +181,9 @@ def _get_process_streams_in_each_subzone(
             continue
         streams_by_full_path[zone_path].append(stream)
         path_components = zone_path.split("/")
-        for idx in range(1, len(path_components)):
-            relative_key = "/".join(path_components[idx:])
-            streams_by_relative_path[relative_key].append(stream)
+        if len(path_components) > 1 and path_components[0] == master_zone.name:
+            # path relative to the master zone; shorter suffixes would also match unrelated zones
+            streams_by_relative_path["/".join(path_components[1:])].append(stream)
         streams_by_relative_path[zone_path].append(stream)
 
     def _iter_zones(parent_zone: Zone):
